@@ -76,7 +76,7 @@ theorem configurePool_cnt (s : State) (ps : List Pool) (hc : Coherent s) (ho : o
   rw [rc.alloc ip] at hr
   by_cases hcf : configured ps ip = true
   · rw [if_pos hcf] at hr
-    unfold listed at hr
+    rw [listed_eq] at hr
     rw [get_append] at hr
     cases hs : Tbl.get s.store ip with
     | some v =>
